@@ -78,9 +78,15 @@ def finding_matches(fd, prop, record):
 _replay_memo = {}
 
 
+def _is_known_input(prop, b, fl):
+    """a witness failure that is one of the listed open findings: never a witness for some other obligation"""
+    rec = {"name": "bounded/%s/%s" % (str(b.get("name", "")).replace("+degraded", ""), fl.get("class", "")), "class": fl.get("class")}
+    return any(finding_matches(fd, prop, rec) for fd in C.load_known_findings().get("findings", []))
+
+
 def try_replay(prop, ob, sections, sd, tier):
     """Find a concrete failing input for a failed obligation: first among the witness failures of this run
-    (same tags), then by an extended search in the hinted family."""
+    (same tags), then by an extended search in the hinted family. Inputs of listed known findings are never attached."""
     fams = ob.get("witness_families") or []
     ce = ob.get("counterexample") or {}
     if isinstance(ce, dict) and isinstance(ce.get("string"), str):
@@ -102,7 +108,7 @@ def try_replay(prop, ob, sections, sd, tier):
             continue
         for b in sec.get("bounded", []):
             for fl in b.get("failures", []):
-                if not fams or fl.get("family") in fams:
+                if (not fams or fl.get("family") in fams) and not _is_known_input(prop, b, fl):
                     return fl
     if fams:
         key = tuple(sorted(fams))
@@ -112,7 +118,8 @@ def try_replay(prop, ob, sections, sd, tier):
             found = None
             for b in doc.get("bounded", []):
                 for fl in b.get("failures", []):
-                    found = found or fl
+                    if not _is_known_input(prop, b, fl):
+                        found = found or fl
             _replay_memo[key] = found
         if _replay_memo[key] is not None:
             return _replay_memo[key]
@@ -124,6 +131,8 @@ def try_replay(prop, ob, sections, sd, tier):
             if str(b.get("name", "")).startswith("axiom_sampling"):
                 continue
             for fl in b.get("failures", []):
+                if _is_known_input(prop, b, fl):
+                    continue
                 fl2 = dict(fl)
                 fl2["note"] = "failing input of another witness family in the same run (not derived from this obligation's counter-model)"
                 return fl2
